@@ -59,6 +59,7 @@ PINS["reshape/ravel rules treat lower-case order"] = ("C02", ["regress/C02/ravel
 PINS["max/min/var/std JVPs also accept a 0-d integer array"] = ("C02", ["regress/C02/chooser-jvp-0d-array-axis.json"])
 PINS["array(x, dtype=complex) VJP returns a real cotangent"] = ("C01", ["regress/C01/array-dtype-complex-real-input.json"])
 PINS["sum(x, dtype=complex) VJP returns a real cotangent"] = ("C01", ["regress/C01/sum-dtype-complex-real-input.json"])
+PINS["cholesky VJP handles complex Hermitian"] = ("C09", ["regress/C09/cholesky-complex-hermitian.json"])
 PINS["clip VJP reduces its cotangent"] = ("C01", ["regress/C01/clip-array-bounds-broadcast.json"])
 PINS["max/min/var/std JVPs accept an axis"] = ("C02", ["regress/C02/chooser-jvp-numpy-int-axis.json"])
 PINS["FFT VJPs recognise a repeated axis"] = ("C01", ["regress/C01/fftn-repeated-axes-mixed-sign.json"])
